@@ -5,7 +5,7 @@ import re, sys, os
 ROOT = os.path.dirname(os.path.dirname(os.path.abspath(__file__)))
 cxx, new, pf, lemma = sys.argv[1:5]
 src = open(os.path.join(ROOT, "coq/theories/Proofs", pf + ".v")).read()
-m = re.search(r"(?:Theorem|Lemma|Corollary|Example)\s+%s\s*(.*?)\nProof\." % re.escape(lemma), src, re.S)
+m = re.search(r"(?:Theorem|Lemma|Corollary|Example)\s+%s(?![A-Za-z0-9_'])\s*(.*?)\nProof\." % re.escape(lemma), src, re.S)
 if not m:
     sys.exit("lemma not found: " + lemma)
 stmt = m.group(1).rstrip()
